@@ -3,7 +3,7 @@ from typing import Any
 
 from lxml import etree
 
-from xsdata.exceptions import XmlHandlerError
+from xsdata.exceptions import ParserError, XmlHandlerError
 from xsdata.formats.dataclass.parsers.mixins import XmlHandler
 from xsdata.models.enums import EventType
 
@@ -28,7 +28,11 @@ class LxmlEventHandler(XmlHandler):
             ctx = etree.iterwalk(source, EVENTS)
         elif self.parser.config.process_xinclude:
             tree = etree.parse(source, base_url=self.parser.config.base_url)  # nosec
-            tree.xinclude()
+            try:
+                tree.xinclude()
+            except etree.XIncludeError as e:
+                raise ParserError(e)
+
             ctx = etree.iterwalk(tree, EVENTS)
         else:
             ctx = etree.iterparse(
